@@ -214,6 +214,46 @@ def corr(ctx):
         msg = [rng.getrandbits(1) for _ in range(k)]
         cw = enc(torch.tensor([msg], dtype=torch.float32))[0].tolist()
         ops.append(Op("penc %d 0 1 %s %s" % (N.bit_length() - 1, bstr(mask), bstr(msg)), bstr(cw), nontrivial=True, info={"site": "fec.encoders:polar.user_mask", "config": {"N": N, "mask": bstr(mask)}}))
+    # ... and by the decoders: successive cancellation (both regimes, clean and arbitrary LLRs) and polar BP on masks of every shape,
+    # in particular masks that are NOT upward-closed (a frozen position after information positions inside a sub-block)
+    umasks = [(8, [1, 1, 1, 0, 0, 0, 0, 0]), (8, [0, 1, 1, 0, 1, 0, 0, 1]), (8, [1, 0, 0, 0, 0, 0, 0, 0]), (4, [1, 0, 1, 0]), (4, [1, 1, 0, 0]), (16, [1, 0, 1, 1, 0, 0, 1, 0, 1, 1, 0, 0, 0, 1, 0, 0])]
+    umasks += [(N_, [rng.getrandbits(1) for _ in range(N_)]) for N_ in (8, 16, 32) for _ in range(2)]
+    for N, mask in umasks:
+        k = sum(mask)
+        if k in (0, N):
+            continue
+        m_ = N.bit_length() - 1
+        for fz0 in (True, False):
+            for inter in (False, True):
+                fzv = 0 if fz0 else 1
+                enc = quiet(PolarCodeEncoder, k, N, load_rank=False, info_indices=torch.tensor(mask, dtype=torch.bool), frozen_zeros=fz0, polar_i=inter)
+                msgs = [list(t_) for t_ in itertools.product([0, 1], repeat=k)] if k <= 3 else [[rng.getrandbits(1) for _ in range(k)] for _ in range(4)]
+                X = enc(torch.tensor(msgs, dtype=torch.float32))
+                cfgm = {"N": N, "mask": bstr(mask), "frozen_zeros": fz0, "polar_i": inter}
+                for regime in ("sum_product", "min_sum"):
+                    sc = SuccessiveCancellationDecoder(enc, regime=regime)
+                    for a in (0.5, 9.0):
+                        out = sc((1 - 2 * X) * a)
+                        ok = bool((out == torch.tensor(msgs, dtype=out.dtype)).all()) and tuple(out.shape) == (len(msgs), k)
+                        ops.append(Op("pkron 0", "1", nontrivial=False, info={"site": "fec.decoders:SuccessiveCancellationDecoder.clean", "config": dict(cfgm, regime=regime, magnitude=a, user_mask=True)}, prop_ok=ok))
+                    if regime == "min_sum":
+                        Lr = torch.tensor([[rng.choice([-1, 1]) * rng.randrange(1, 512) / 8 for _ in range(N)] for _ in range(2)], dtype=torch.float32)
+                        for row, o in zip(Lr.tolist(), sc(Lr).tolist()):
+                            MARGIN[0] = float("inf")
+                            textbook_sc(row, [bool(v) for v in mask], fzv, inter, f_ms)
+                            if MARGIN[0] < 1e-9:
+                                continue
+                            ops.append(Op("psc %d %d %d 1000 %s %s" % (m_, inter, fzv, bstr(mask), fr(row)), bstr(o), nontrivial=True,
+                                          info={"site": "fec.decoders:SuccessiveCancellationDecoder", "config": dict(cfgm, regime=regime, user_mask=True)}))
+                if not inter:      # the BP decoder rejects polar_i=True at construction (an error, not a wrong answer)
+                    try:
+                        bp = quiet(BeliefPropagationPolarDecoder, enc, bp_iters=20)
+                        outb = quiet(bp, (1 - 2 * X) * 4.0)
+                        okb = bool((outb == torch.tensor(msgs, dtype=outb.dtype)).all())
+                    except Exception as e_:
+                        okb = False
+                    ops.append(Op("pkron 0", "1", nontrivial=False, info={"site": "fec.decoders:BeliefPropagationPolarDecoder.clean", "config": dict(cfgm, user_mask=True)}, prop_ok=okb))
+        ctx.count("user_mask_decoders")
     # ---- the check-node rule itself, band by band (each call holds only values of one band), against the float64 definition
     from kaira.models.fec.encoders.polar_code import PolarCodeEncoder as _PE
     scn = SuccessiveCancellationDecoder(_PE(2, 4), regime="sum_product")
